@@ -506,6 +506,10 @@ func ToRune(source []byte, pos int) rune {
 			break
 		}
 	}
+	if i < 0 {
+		// No rune start byte at or before pos: the bytes are not valid UTF-8.
+		return utf8.RuneError
+	}
 	r, _ := utf8.DecodeRune(source[i:])
 	return r
 }
